@@ -5,6 +5,7 @@
   unbounded (`Int`) wherever the statement says "every image".
 -/
 import Proofs.C02_Lemmas
+import Proofs.C02_Source
 
 namespace Atomman.C02
 open Atomman
@@ -489,6 +490,251 @@ theorem displacement_refuses (s0 s1 : Sys K) (ref : String) :
     · rfl
     · simp [refBox, h1, h2, h3]
 
+
+
+/-! ### API level: the public entry points with their argument handling (round 5)
+
+  `dvectApi` / `dmag2Api` are the hand model of `atomman.dvect` / `atomman.dmag` as a caller sees them (array-likes of any
+  rank, flags of any integer form); `Generated.DvectSource.dvectWrap` / `dmagWrap` / `displacement` / `sysDvect` are what
+  the source says NOW (regenerated on every check) and are proved equal to the model in `Proofs/C02_Source.lean`.  The
+  end-to-end theorems below are stated about the generated definitions. -/
+
+theorem broadcast_isSome_iff {α : Type} (l0 l1 : List α) :
+    (∃ r, broadcast l0 l1 = some r) ↔ (l0.length = 1 ∨ l1.length = 1 ∨ l0.length = l1.length) := by
+  rcases l0 with _ | ⟨x, _ | ⟨x', t⟩⟩ <;> rcases l1 with _ | ⟨y, _ | ⟨y', t'⟩⟩ <;> simp [broadcast]
+
+theorem broadcast_length {α : Type} (l0 l1 : List α) (l : List (α × α)) (h : broadcast l0 l1 = some l) :
+    l.length = if l0.length = 1 then l1.length else l0.length := by
+  rcases l0 with _ | ⟨x, _ | ⟨x', t⟩⟩ <;> rcases l1 with _ | ⟨y, _ | ⟨y', t'⟩⟩ <;> simp [broadcast] at h <;>
+    (try obtain ⟨hl, h⟩ := h) <;> (try subst h) <;> simp <;> (try omega)
+
+theorem apiFlags_isSome_iff (pbc : List Int) : (∃ f, apiFlags pbc = some f) ↔ 3 ≤ pbc.length := by
+  rcases pbc with _ | ⟨a, _ | ⟨b, _ | ⟨c, t⟩⟩⟩ <;> simp [apiFlags]
+
+/-- on accepted arguments the API model is the array-level model of the rows, under the truth values of the first three
+    flags (further entries are never read). -/
+theorem dvectApi_eq_arr (v : M3 K) (a b c : Int) (rest : List Int) (a0 a1 : PosArg K) (l0 l1 : List (V3 K))
+    (h0 : a0.rowsOf = some l0) (h1 : a1.rowsOf = some l1) :
+    dvectApi v (a :: b :: c :: rest) a0 a1 =
+      match dvectArr v (a != 0) (b != 0) (c != 0) l0 l1 with
+      | some r => .ok r
+      | none => .error "value" := by
+  cases a0 with
+  | scalar => simp [PosArg.rowsOf] at h0
+  | rank3 n => simp [PosArg.rowsOf] at h0
+  | flat p =>
+    simp only [PosArg.rowsOf, Option.some.injEq] at h0
+    subst h0
+    cases a1 with
+    | scalar => simp [PosArg.rowsOf] at h1
+    | rank3 n => simp [PosArg.rowsOf] at h1
+    | flat q =>
+      simp only [PosArg.rowsOf, Option.some.injEq] at h1
+      subst h1
+      simp [dvectApi, apiPairs, apiFlags, dvectArr, broadcast]
+    | rows l =>
+      simp only [PosArg.rowsOf, Option.some.injEq] at h1
+      subst h1
+      simp [dvectApi, apiPairs, apiFlags, dvectArr, broadcast]
+  | rows l =>
+    simp only [PosArg.rowsOf, Option.some.injEq] at h0
+    subst h0
+    cases a1 with
+    | scalar => simp [PosArg.rowsOf] at h1
+    | rank3 n => simp [PosArg.rowsOf] at h1
+    | flat q =>
+      simp only [PosArg.rowsOf, Option.some.injEq] at h1
+      subst h1
+      cases h : broadcast l [q] <;> simp [dvectApi, apiPairs, apiFlags, dvectArr, h]
+    | rows l' =>
+      simp only [PosArg.rowsOf, Option.some.injEq] at h1
+      subst h1
+      cases h : broadcast l l' <;> simp [dvectApi, apiPairs, apiFlags, dvectArr, h]
+
+/-- ACCEPTANCE, exactly: `atomman.dvect` returns a value iff both arguments are a point or an `(n,3)` array (no 0-d value,
+    no rank-3 array), the lengths are compatible (one of them 1, or equal) and `pbc` has at least three entries. -/
+theorem dvectApi_ok_iff (v : M3 K) (pbc : List Int) (a0 a1 : PosArg K) :
+    (∃ r, dvectApi v pbc a0 a1 = .ok r) ↔
+      ∃ l0 l1, a0.rowsOf = some l0 ∧ a1.rowsOf = some l1 ∧
+        (l0.length = 1 ∨ l1.length = 1 ∨ l0.length = l1.length) ∧ 3 ≤ pbc.length := by
+  rcases pbc with _ | ⟨a, _ | ⟨b, _ | ⟨c, t⟩⟩⟩
+  · cases a0 <;> cases a1 <;> simp [dvectApi, apiPairs, apiFlags] <;> (intros; split <;> simp)
+  · cases a0 <;> cases a1 <;> simp [dvectApi, apiPairs, apiFlags] <;> (intros; split <;> simp)
+  · cases a0 <;> cases a1 <;> simp [dvectApi, apiPairs, apiFlags] <;> (intros; split <;> simp)
+  · cases h0 : a0.rowsOf with
+    | none => cases a0 <;> cases a1 <;> simp_all [PosArg.rowsOf, dvectApi, apiPairs]
+    | some l0 =>
+      cases h1 : a1.rowsOf with
+      | none => cases a0 <;> cases a1 <;> simp_all [PosArg.rowsOf, dvectApi, apiPairs]
+      | some l1 =>
+        rw [dvectApi_eq_arr v a b c t a0 a1 l0 l1 h0 h1]
+        have hb := broadcast_isSome_iff l0 l1
+        cases hbr : broadcast l0 l1 with
+        | none =>
+          have : ¬ (l0.length = 1 ∨ l1.length = 1 ∨ l0.length = l1.length) := by
+            intro hc; obtain ⟨r, hr⟩ := hb.mpr hc; rw [hbr] at hr; cases hr
+          simp [dvectArr, hbr, this]
+        | some r =>
+          have : l0.length = 1 ∨ l1.length = 1 ∨ l0.length = l1.length := hb.mp ⟨r, hbr⟩
+          simp [dvectArr, hbr, this]
+
+/-- REFUSAL CLASS: a TypeError is raised exactly for a 0-d argument (it wins over every ValueError: the rank checks come
+    first in the wrapper). -/
+theorem dvectApi_type_iff (v : M3 K) (pbc : List Int) (a0 a1 : PosArg K) :
+    dvectApi v pbc a0 a1 = .error "type" ↔ (a0 = .scalar ∨ a1 = .scalar) := by
+  cases a0 with
+  | scalar => cases a1 <;> simp [dvectApi, apiPairs]
+  | rank3 n => cases a1 <;> simp [dvectApi, apiPairs]
+  | flat p =>
+    cases a1 with
+    | scalar => simp [dvectApi, apiPairs]
+    | rank3 n => simp [dvectApi, apiPairs]
+    | flat q => cases hf : apiFlags pbc <;> simp [dvectApi, apiPairs, hf]
+    | rows l => cases hf : apiFlags pbc <;> simp [dvectApi, apiPairs, hf]
+  | rows l =>
+    cases a1 with
+    | scalar => simp [dvectApi, apiPairs]
+    | rank3 n => simp [dvectApi, apiPairs]
+    | flat q => cases hb : broadcast l [q] <;> cases hf : apiFlags pbc <;> simp [dvectApi, apiPairs, hf, hb]
+    | rows l' => cases hb : broadcast l l' <;> cases hf : apiFlags pbc <;> simp [dvectApi, apiPairs, hf, hb]
+
+/-- only the TRUTH VALUE of the first three flags matters: `1`, `2`, `-1`, `np.True_` are the same flag, entries beyond
+    the third are never read. -/
+theorem dvectApi_flag_forms (v : M3 K) (a b c a' b' c' : Int) (rest rest' : List Int) (a0 a1 : PosArg K)
+    (ha : (a != 0) = (a' != 0)) (hb : (b != 0) = (b' != 0)) (hc : (c != 0) = (c' != 0)) :
+    dvectApi v (a :: b :: c :: rest) a0 a1 = dvectApi v (a' :: b' :: c' :: rest') a0 a1 ∧
+    dmag2Api v (a :: b :: c :: rest) a0 a1 = dmag2Api v (a' :: b' :: c' :: rest') a0 a1 := by
+  simp [dvectApi, dmag2Api, apiFlags, ha, hb, hc]
+
+/-- `atomman.dmag` squared is `atomman.dvect` row by row squared, with the same refusals — for every argument form. -/
+theorem dmag2Api_eq (v : M3 K) (pbc : List Int) (a0 a1 : PosArg K) :
+    dmag2Api v pbc a0 a1 = (dvectApi v pbc a0 a1).map (List.map V3.normSq) := by
+  unfold dmag2Api dvectApi
+  cases apiPairs a0 a1 with
+  | error e => rfl
+  | ok l =>
+    cases apiFlags pbc with
+    | none => rfl
+    | some f =>
+      obtain ⟨px, py, pz⟩ := f
+      simp only [Except.map, List.map_map]
+      congr 1
+      apply List.map_congr_left
+      intro pq _
+      exact dmag2_eq_normsq_dvect _ _ _ _ _ _
+
+open Atomman.Generated in
+/-- END TO END, `atomman.dvect` as the source reads now: for every accepted call each returned row is the periodic
+    separation of a point of `pos_0` and a point of `pos_1` under the truth values of `pbc[0..2]`: the direct separation
+    shifted by whole cell vectors along periodic directions only, never longer than any of the 27 candidates. -/
+theorem api_dvect_end_to_end (v : M3 K) (a b c : Int) (rest : List Int) (a0 a1 : PosArg K) (r : List (V3 K))
+    (h : DvectSource.dvectWrap v (a :: b :: c :: rest) a0 a1 = .ok r) :
+    ∃ l0 l1, a0.rowsOf = some l0 ∧ a1.rowsOf = some l1 ∧
+      r.length = (if l0.length = 1 then l1.length else l0.length) ∧
+      ∀ d ∈ r, ∃ p0 ∈ l0, ∃ p1 ∈ l1, d = dvect v (a != 0) (b != 0) (c != 0) p0 p1 ∧
+        (∃ n : Shift, n.admissible (a != 0) (b != 0) (c != 0) ∧ d = (p1 - p0) + latticeVec v n) ∧
+        ∀ m : Shift, m.admissible (a != 0) (b != 0) (c != 0) → V3.normSq d ≤ V3.normSq ((p1 - p0) + latticeVec v m) := by
+  rw [Source.gen_dvectWrap_eq_model] at h
+  obtain ⟨l0, l1, h0, h1, hlen, _⟩ := (dvectApi_ok_iff v _ a0 a1).mp ⟨r, h⟩
+  refine ⟨l0, l1, h0, h1, ?_, ?_⟩
+  · rw [dvectApi_eq_arr v a b c rest a0 a1 l0 l1 h0 h1] at h
+    cases hb : broadcast l0 l1 with
+    | none => simp [dvectArr, hb] at h
+    | some l =>
+      simp only [dvectArr, hb, Option.map_some, Except.ok.injEq] at h
+      subst h
+      simpa using broadcast_length l0 l1 l hb
+  · rw [dvectApi_eq_arr v a b c rest a0 a1 l0 l1 h0 h1] at h
+    cases hd : dvectArr v (a != 0) (b != 0) (c != 0) l0 l1 with
+    | none => simp [hd] at h
+    | some rows =>
+      simp only [hd, Except.ok.injEq] at h
+      subst h
+      exact dvectArr_rows v _ _ _ l0 l1 rows hd
+
+open Atomman.Generated in
+/-- END TO END, `atomman.dmag` as the source reads now: the values (before `** 0.5`) are the squared lengths of the rows
+    `atomman.dvect` returns for the same call, refusals included. -/
+theorem api_dmag_end_to_end (v : M3 K) (a b c : Int) (rest : List Int) (a0 a1 : PosArg K) :
+    DvectSource.dmagWrap v (a :: b :: c :: rest) a0 a1 =
+      (DvectSource.dvectWrap v (a :: b :: c :: rest) a0 a1).map (List.map V3.normSq) := by
+  rw [Source.gen_dmagWrap_eq_model, Source.gen_dvectWrap_eq_model, dmag2Api_eq]
+
+/-- ACCEPTANCE of `displacement`, exactly: equal atom counts and one of the three references. -/
+theorem displacement_ok_iff (s0 s1 : Sys K) (ref : String) :
+    (∃ l, displacement s0 s1 ref = .ok l) ↔
+      s0.pos.length = s1.pos.length ∧ (ref = "final" ∨ ref = "initial" ∨ ref = "None") := by
+  unfold displacement refBox
+  by_cases hn : s0.pos.length = s1.pos.length
+  · by_cases h1 : ref = "final"
+    · simp [hn, h1]
+    · by_cases h2 : ref = "initial"
+      · simp [hn, h1, h2]
+      · by_cases h3 : ref = "None" <;> simp [hn, h1, h2, h3]
+  · simp [hn]
+
+open Atomman.Generated in
+/-- END TO END, `atomman.displacement` as the source reads now (it goes through the WRAPPER `dvect`, broadcasting rule
+    included): an accepted call returns one row per atom; with `'final'` / `'initial'` row `i` is the periodic separation of
+    atom `i` of the two systems under the named system's cell and flags — an admissible image of the direct separation,
+    not longer than any of the 27 candidates; with `None` the plain difference. A one-atom system is never broadcast. -/
+theorem api_displacement_end_to_end (s0 s1 : Sys K) (ref : String) (l : List (V3 K))
+    (h : DvectSource.displacement s0 s1 ref = .ok l) :
+    s0.pos.length = s1.pos.length ∧ l.length = s0.pos.length ∧
+    ∃ rb, refBox s0 s1 ref = some rb ∧
+      ∀ (i : Nat) (h0 : i < s0.pos.length) (h1 : i < s1.pos.length) (hl : i < l.length),
+        l[i] = dispWith rb s0.pos[i] s1.pos[i] ∧
+        (rb = none → l[i] = s1.pos[i] - s0.pos[i]) ∧
+        (∀ v px py pz, rb = some (v, px, py, pz) →
+          (∃ n : Shift, n.admissible px py pz ∧ l[i] = (s1.pos[i] - s0.pos[i]) + latticeVec v n) ∧
+          ∀ m : Shift, m.admissible px py pz →
+            V3.normSq l[i] ≤ V3.normSq ((s1.pos[i] - s0.pos[i]) + latticeVec v m)) := by
+  rw [Source.gen_displacement_eq_model] at h
+  obtain ⟨hlen, hl, rb, hrb, hrows⟩ := displacement_atomwise s0 s1 ref l h
+  refine ⟨hlen, hl, rb, hrb, ?_⟩
+  intro i h0 h1 hli
+  have hi := hrows i h0 h1 hli
+  refine ⟨hi, ?_, ?_⟩
+  · intro hnone; rw [hi, hnone]; rfl
+  · intro v px py pz hsome
+    rw [hi, hsome]
+    exact ⟨dvect_is_image v px py pz _ _, fun m hm => dvect_min27 v px py pz _ _ m hm⟩
+
+open Atomman.Generated in
+/-- END TO END, `System.dvect` / `System.dmag` as the source reads now: the hand model's theorems (`sysDvect_rows`,
+    `sysDmag2_eq`) are about the code. -/
+theorem api_system_end_to_end (atoms : List (V3 K)) (v : M3 K) (px py pz : Bool) (s0 s1 : Sel K) :
+    DvectSource.sysDvect atoms v px py pz s0 s1 = sysDvect atoms v px py pz s0 s1 ∧
+    DvectSource.sysDmag atoms v px py pz s0 s1 =
+      (DvectSource.sysDvect atoms v px py pz s0 s1).map (fun r => (r.1, r.2.map V3.normSq)) := by
+  refine ⟨Source.gen_sysDvect_eq_model _ _ _ _ _ _ _, ?_⟩
+  rw [Source.gen_sysDmag_eq_model, Source.gen_sysDvect_eq_model, sysDmag2_eq]
+
+/-- the `System.pbc` setter accepts exactly three entries (anything else is the AssertionError) and stores their truth
+    values. -/
+theorem pbcSetter_ok_iff (value : List Int) :
+    (∃ f, Atomman.Generated.DvectSource.pbcSetter value = some f) ↔ value.length = 3 := by
+  rw [Source.gen_pbcSetter_eq_model]
+  rcases value with _ | ⟨a, _ | ⟨b, _ | ⟨c, _ | ⟨d, t⟩⟩⟩⟩ <;> simp [pbcSetterArg]
+
+/-- non-vacuity of the API theorems: a one-to-many call with a flat point, integer-valued flags `(2, 0, -1, 7)` (truth
+    values `True, False, True`; the fourth entry is never read), and the refusals. -/
+example :
+    let v : M3 ℚ := ⟨⟨4, 0, 0⟩, ⟨1, 4, 0⟩, ⟨1, 1, 4⟩⟩
+    dvectApi v [2, 0, -1, 7] (.flat ⟨0, 0, 0⟩) (.rows [⟨3, 0, 0⟩, ⟨0, 3, 0⟩]) = .ok [⟨-1, 0, 0⟩, ⟨0, 3, 0⟩] ∧
+    dvectApi v [1, 0, 1] (.flat ⟨0, 0, 0⟩) (.rows [⟨3, 0, 0⟩, ⟨0, 3, 0⟩]) = .ok [⟨-1, 0, 0⟩, ⟨0, 3, 0⟩] ∧
+    dvectApi v [1, 1, 1] .scalar (.rank3 2) = .error "type" ∧
+    dvectApi v [1, 1, 1] (.rows [⟨0, 0, 0⟩]) (.rank3 2) = .error "value" ∧
+    dvectApi v [1, 1, 1] (.rows [⟨0, 0, 0⟩, ⟨1, 0, 0⟩]) (.rows [⟨0, 0, 0⟩, ⟨1, 0, 0⟩, ⟨2, 0, 0⟩]) = .error "value" ∧
+    Atomman.Generated.DvectSource.dvectWrap v [2, 0, -1, 7] (.flat ⟨0, 0, 0⟩) (.rows [⟨3, 0, 0⟩, ⟨0, 3, 0⟩])
+      = .ok [⟨-1, 0, 0⟩, ⟨0, 3, 0⟩] ∧
+    Atomman.Generated.DvectSource.displacement ⟨v, true, true, true, [⟨0, 0, 0⟩]⟩ ⟨v, false, false, false, [⟨3, 0, 0⟩]⟩ "initial"
+      = .ok [⟨-1, 0, 0⟩] ∧
+    Atomman.Generated.DvectSource.displacement ⟨v, true, true, true, [⟨0, 0, 0⟩]⟩
+      ⟨v, false, false, false, [⟨3, 0, 0⟩, ⟨1, 1, 1⟩]⟩ "final" = .error "value" ∧
+    Atomman.Generated.DvectSource.pbcSetter [2, 0, -1] = some (true, false, true) ∧
+    Atomman.Generated.DvectSource.pbcSetter [1, 0] = none := by
+  decide +kernel
 
 /-! ### index dispatch of `System.dvect/dmag` -/
 
